@@ -74,7 +74,9 @@ ASSUMPTIONS = [
 ]
 RULE = ("corpus; exhaustive interleavings of 2 iterators (domain sizes 1-3, up to 4 next() each, abandonment points) "
         "plus random schedules of 3 iterators; random sequential re-evaluation orders of 1-3 generated queries sharing "
-        "variables with partial consumption; rule-query histories (one in four random cases): generated C08 programs "
+        "variables with partial consumption; 2-3 queries sharing ONE attribute node object in different roles (whole "
+        "condition, conjunct, negated, comparison operand), written up front or right before their first evaluation; 1-2 queries over variables WITHOUT a domain (instances of the "
+        "SymbolGraph, created between the evaluations) incl. selected mappings of a variable no condition mentions; rule-query histories (one in four random cases): generated C08 programs "
         "with <= 6 blocks under sequential histories with abandonment, histories that grow the tree between "
         "evaluations, overlapping histories of 2-3 iterators plus complete evaluations, and results handed out before "
         "/ read after another evaluation; non-trivial = some iterator returns at least one element and the "
@@ -366,7 +368,84 @@ def _shared_attribute(rng):
     return case
 
 
-def _multi_case(world, queries, order, sharecond=False, shareattr=False):
+def _shared_attribute_roles(rng):
+    """ONE attribute node object (`active = x.f`) used by 2-3 query objects in DIFFERENT roles — as the whole condition, as
+    a conjunct / negated condition, as a comparison operand — built up front (`eager`) or right before their first
+    evaluation, then evaluated one after the other in a random order, partially consumed or completely: the FIRST
+    evaluation of a query comes after evaluations of the others, whose last inspected value may be falsy"""
+    kinds, objs, doms = G.gen_world(rng, ["x"], falsy=False, int_p=0.0, max_objs=5)
+    xf = ("attr", ("var", "x"), "f")
+    xa = ("attr", ("var", "x"), "a")
+    def as_condition():
+        return rng.choice([("truth", xf), ("truth", xf), ("and", ("cmp", "ge", xa, ("lit", rng.randrange(1, 3))), ("truth", xf)),
+                           ("and", ("truth", xf), ("cmp", "le", xa, ("lit", rng.randrange(1, 4)))), ("not", ("truth", xf))])
+    def as_operand():
+        c = ("cmp", rng.choice(["eq", "ne"]), xf, ("lit", rng.random() < 0.5))
+        return rng.choice([c, c, ("and", ("cmp", "ge", xa, ("lit", rng.randrange(1, 3))), c), ("not", c)])
+    nq = rng.choice([2, 2, 3])
+    roles = [as_condition, as_operand] + [rng.choice([as_condition, as_operand])]
+    rng.shuffle(roles)
+    sel = [("var", "x")]
+    queries = [{"sel": sel, "cond": roles[i]()} for i in range(nq)]
+    order = [(rng.randrange(nq), rng.choice([-1, -1, -1, 0, 1, 2])) for _ in range(rng.randrange(2, 6))]
+    eager = rng.random() < 0.5
+    whole = [q for q in queries if q["cond"] == ("truth", xf)]
+    if whole:
+        # a node has ONE parent (the expression built last) and caches its conditions root at its first evaluation: the
+        # queries whose WHOLE condition is the shared node are written first, all queries before the first evaluation
+        # (outside that region today's code loses answers: see notes/build_reports/s6a.md, candidate finding)
+        queries = whole + [q for q in queries if q["cond"] != ("truth", xf)]
+        eager = True
+    case = _multi_case({"objs": objs, "doms": doms, "kinds": kinds}, queries, order, shareattr=True, eager=eager)
+    case.tags = ("multi", "shared-attribute-roles", f"queries{nq}", f"evals{len(order)}")
+    return case
+
+
+def _graph_history(rng):
+    """variables declared WITHOUT a domain (`let(T, None)`: the instances of T in the SymbolGraph), shared by 1-2 query objects
+    built up front; instances are CREATED between the evaluations (`(graph n0 n1 …)`: at the j-th evaluation the first n_j
+    objects exist). Query shapes: a selected MAPPING (attribute / index) of a variable no condition mentions, alone or in a
+    set_of next to a conditioned variable; plain conditioned selections sharing the variable"""
+    nobj = rng.randrange(2, 6)
+    objs = []
+    for i in range(nobj):
+        a = rng.randrange(0, 4)
+        objs.append({"cls": 0, "veq": False, "fields": {"a": a, "f": rng.random() < 0.5,
+                                                         "items": [rng.randrange(0, 3) for _ in range(rng.randrange(1, 3))],
+                                                         "peer": ("obj", rng.randrange(0, i + 1)), "m_dbl": 2 * a}})
+    full = [("obj", i) for i in range(nobj)]
+    def mapping(v):
+        return rng.choice([("attr", ("var", v), "a"), ("attr", ("var", v), "peer"), ("attr", ("attr", ("var", v), "peer"), "a"),
+                           ("index", ("attr", ("var", v), "items"), 0), ("call", ("var", v), "dbl")])
+    def plain(v):
+        return ("cmp", rng.choice(list(G.OPS)), ("attr", ("var", v), "a"), ("lit", rng.randrange(0, 4)))
+    def query():
+        k = rng.random()
+        if k < 0.3:
+            return {"sel": [mapping("x")], "cond": None}
+        if k < 0.5:
+            return {"sel": [("var", "y"), mapping("x")], "cond": plain("y")}
+        if k < 0.6:
+            return {"sel": [mapping("x")], "cond": plain("x")}
+        if k < 0.7:
+            return {"sel": [mapping("x")], "cond": plain("y")}
+        return {"sel": [("var", "x")], "cond": rng.choice([plain("x"), plain("x"), ("not", plain("x")), ("truth", ("attr", ("var", "x"), "f"))])}
+    nq = rng.choice([1, 2, 2])
+    queries = [query() for _ in range(nq)]
+    used = {v for q in queries for t in q["sel"] for v in G.t_vars(t)} | \
+           {v for q in queries if q["cond"] is not None for v in G.c_allvars(q["cond"])}
+    order = [(rng.randrange(nq), rng.choice([-1, -1, -1, 1, 2])) for _ in range(rng.randrange(2, 5))]
+    n, graph = rng.randrange(1, nobj + 1), []
+    for _ in order:
+        graph.append(n)
+        n = min(nobj, n + rng.choice([0, 1, 1, 2]))
+    world = {"objs": objs, "doms": {v: list(full) for v in ("x", "y") if v in used}, "kinds": {v: "obj" for v in used}}
+    case = _multi_case(world, queries, order, graph=graph)
+    case.tags = ("multi", "symbol-graph-history", f"queries{nq}", f"evals{len(order)}")
+    return case
+
+
+def _multi_case(world, queries, order, sharecond=False, shareattr=False, eager=False, graph=None):
     q0 = {"sel": [], "cond": None, "objs": world["objs"], "doms": world["doms"]}
     full = G.sx_query({**q0, "sel": [("var", next(iter(world["doms"])))]})
     # reuse the printers of eqlgen for the world part
@@ -376,11 +455,14 @@ def _multi_case(world, queries, order, sharecond=False, shareattr=False):
     for q in queries:
         ids = G._LitIds()
         head = "qqx" if G.has_subq(q["cond"]) else "qq"
-        qparts.append("(" + head + " (sel " + " ".join(G.sx_term(t, ids) for t in q["sel"]) + ") (cond " + G.sx_cond(q["cond"], ids) + "))")
+        qparts.append("(" + head + " (sel " + " ".join(G.sx_term(t, ids) for t in q["sel"]) + ")" +
+                      (" (cond " + G.sx_cond(q["cond"], ids) + ")" if q["cond"] is not None else "") + ")")
     line = "(multi (order " + " ".join(f"({a} {b})" for a, b in order) + ") " + objs_part + " " + doms_part + \
-           " (queries " + " ".join(qparts) + ")" + (" (sharecond)" if sharecond else "") + (" (shareattr)" if shareattr else "") + ")"
+           " (queries " + " ".join(qparts) + ")" + (" (sharecond)" if sharecond else "") + (" (shareattr)" if shareattr else "") + \
+           (" (eager)" if eager else "") + (" (graph " + " ".join(str(k) for k in graph) + ")" if graph else "") + ")"
     return Case(line, ("multi", f"queries{len(queries)}", f"evals{len(order)}"), "random",
-                {"world": world, "queries": queries, "order": order, "sharecond": sharecond, "shareattr": shareattr})
+                {"world": world, "queries": queries, "order": order, "sharecond": sharecond, "shareattr": shareattr,
+                 "eager": eager, "graph": graph})
 
 
 
@@ -666,6 +748,12 @@ def generate(rng, tier, n):
             out.append(_multi_subquery(rng))
         else:
             out.append(_multi(rng))
+    # s6a: one attribute node shared by 2-3 queries in different roles (whole condition / conjunct / operand)
+    for _ in range(max(60, n // 8)):
+        out.append(_shared_attribute_roles(rng))
+    # s6a: variables over the SymbolGraph (no domain given), instances created between the evaluations
+    for _ in range(max(60, n // 8)):
+        out.append(_graph_history(rng))
     return out
 
 
@@ -680,11 +768,14 @@ def revive(case: Case) -> Case:
                          " ".join(_unparse(x) for x in d["doms"]) + "))")
     world = {"objs": fake["objs"], "doms": fake["doms"]}
     queries = [{"sel": [G._p_term(t) for t in dict((p[0], p[1:]) for p in qq[1:])["sel"]],  # qq and qqx alike
-                "cond": G._p_cond(dict((p[0], p[1:]) for p in qq[1:])["cond"][0])} for qq in d["queries"]]
+                "cond": (G._p_cond(dict((p[0], p[1:]) for p in qq[1:])["cond"][0])
+                         if "cond" in dict((p[0], p[1:]) for p in qq[1:]) else None)} for qq in d["queries"]]
     order = [(int(a), int(b)) for a, b in d["order"]]
     case.payload = {"world": world, "queries": queries, "order": order,
                     "sharecond": any(p == ["sharecond"] for p in s[1:]),
-                    "shareattr": any(p == ["shareattr"] for p in s[1:])}
+                    "shareattr": any(p == ["shareattr"] for p in s[1:]),
+                    "eager": any(p == ["eager"] for p in s[1:]),
+                    "graph": [int(k) for k in d["graph"]] if "graph" in d else None}
     return case
 
 
@@ -808,17 +899,55 @@ def _run_sched(line: str) -> str:
     return " ".join(out)
 
 
+_SYMBOL_CLASS = []
+
+
+def _symbol_class():
+    if not _SYMBOL_CLASS:
+        from krrood.entity_query_language.predicate import Symbol
+
+        class SP(G.P, Symbol):
+            """identity-equal user objects that are registered in the SymbolGraph"""
+        _SYMBOL_CLASS.append(SP)
+    return _SYMBOL_CLASS[0]
+
+
 def _run_multi(p) -> str:
     world, queries, order = p["world"], p["queries"], p["order"]
     q0 = {"objs": world["objs"], "doms": world["doms"], "kinds": world.get("kinds", {})}
-    objs = G.make_objects(q0)
-    V = G.make_vars(q0, objs, one_shot=True)
+    graph = p.get("graph")
+    if graph:
+        # the variables range over the SymbolGraph; only the first graph[0] instances exist, the others are created later
+        from krrood.entity_query_language.entity import let
+        from krrood.entity_query_language.symbol_graph import SymbolGraph
+        SymbolGraph().clear(); SymbolGraph()
+        cls = _symbol_class()
+        objs = []
+        def create(upto):
+            while len(objs) < min(upto, len(world["objs"])):
+                o = world["objs"][len(objs)]
+                ob = cls(len(objs), o["cls"], {})
+                objs.append(ob)
+                ob._fields = {k: G.real_val(v, objs) for k, v in o["fields"].items()}
+                for k, v in ob._fields.items():
+                    if not k.startswith(("m_", "c_")):
+                        object.__setattr__(ob, k, v)
+        create(graph[0])
+        V = {n: let(cls, None, name=n) for n in world["doms"]}
+    else:
+        objs = G.make_objects(q0)
+        V = G.make_vars(q0, objs, one_shot=True)
     memo = {} if p.get("sharecond") else None
     amemo = {} if p.get("shareattr") else None
     lazy = memo is not None or amemo is not None
     built = {} if lazy else {i: G.build_query({**q0, **q}, V, objs) for i, q in enumerate(queries)}
+    if lazy and p.get("eager"):
+        # every query is built up front, sharing the stored condition / attribute node objects
+        built = {i: G.build_query({**q0, **q}, V, objs, cond_memo=memo, attr_memo=amemo) for i, q in enumerate(queries)}
     outs = []
-    for qi, k in order:
+    for j, (qi, k) in enumerate(order):
+        if graph:
+            create(graph[j])
         if qi not in built:
             # shared-condition flavour: a query is built right before its first evaluation, re-using condition objects
             built[qi] = G.build_query({**q0, **queries[qi]}, V, objs, cond_memo=memo, attr_memo=amemo)
